@@ -281,6 +281,29 @@ func TestCheck(t *testing.T) {
 	rep.Info["rule"] = "multisets of 3 outcomes from " + fmt.Sprint(names(os)) + "; per multiset every interleaving of client steps, clock advances and serveConn gate releases with <= bound deviations; oracle at every quiescent state and at the end"
 	rep.Info["max_deviation_bound_completed"] = bound
 	rep.Assume("interleavings at environment-step and vhook-gate granularity; crypto/tls and net/http goroutines run freely between two quiescent states")
+	if rq, ok := ev.ReplayRequest(); ok {
+		var ms []outcome
+		if names, ok := rq["multiset"].([]any); ok {
+			for _, n := range names {
+				for _, o := range os {
+					if o.name == n {
+						ms = append(ms, o)
+					}
+				}
+			}
+		}
+		withCancel, _ = rq["with_cancel"].(bool)
+		o, trace := mc.Replay(ev.Ints(rq["choices"]), func(c *mc.Chooser) mc.Outcome { return runOne(t, ms, c) })
+		rep.Add("schedules", 1)
+		rep.Add("states", int64(len(trace)))
+		rep.Add("transitions", int64(len(trace)))
+		rep.Add("traces_validated_against_impl", 1)
+		rep.Sample(map[string]any{"replayed_schedule": trace, "observation": o.Obs})
+		for i, w := range o.Violations {
+			rep.Violate(map[string]any{"kind": strings.SplitN(o.Sigs[i], ":", 2)[0], "detail": o.Sigs[i]}, rq, "%s", w)
+		}
+		return
+	}
 	idx := 0
 	for a := 0; a < len(os); a++ {
 		for b := a; b < len(os); b++ {
@@ -341,7 +364,7 @@ func TestCheck(t *testing.T) {
 						continue
 					}
 					rep.Violate(map[string]any{"kind": strings.SplitN(f.Sig, ":", 2)[0], "detail": f.Sig},
-						map[string]any{"multiset": names(ms), "choices": f.Choices, "schedule": f.Trace}, "%s", f.What)
+						map[string]any{"multiset": names(ms), "with_cancel": withCancel, "choices": f.Choices, "schedule": f.Trace}, "%s", f.What)
 				}
 				if time.Now().After(deadline) {
 					rep.NotExhaustive("time budget reached")
